@@ -106,6 +106,21 @@ def run(ctx):
         for s in reached:
             ctx.count("state:" + s)
         ctx.count("labels", len(labels))
+    # interleavings INSIDE a handler: two tasks raise teardown-causing events while the client's handler is suspended
+    srcs = ["RUNNING_PING_NO_RESPONSE", "ERROR_RF_ERROR", "UserReset"]
+    for e1 in srcs:
+        for e2 in srcs:
+            r = lifecycle.run_concurrent_teardown(e1, e2)
+            ctx.count("concurrent_teardown_schedules")
+            if r is None:
+                continue
+            dels, final = r
+            ready = sum(1 for d in dels if d[0] == "CLIENT_FACADE_IS_READY")
+            tear = sum(1 for d in dels if d[0] == "CLIENT_FACADE_TEARDOWN")
+            ctx.case(("concurrent", e1, e2), nontrivial=True)
+            if tear > 1 + ready:
+                ctx.fail("lifecycle:teardown_twice_concurrent", "CLIENT_FACADE_TEARDOWN announced %d times for one facade-ready: %s raised by one task and, while the client's teardown "
+                         "handler was suspended, %s by another" % (tear, e1, e2), {"first": e1, "second": e2, "deliveries": [d[:2] for d in dels]})
     for s in (meta[0], meta[1], meta[-1]):
         ctx.sample(s)
     res = ctx.coq_cases("life", HEADER, exprs, shard=40)
